@@ -281,6 +281,12 @@ Proof.
   apply pres_bind; [apply IH|]. intros tl' s2 H2. reflexivity.
 Qed.
 
+Lemma pres_num_method st b m args : pres st (num_method st b m args).
+Proof.
+  unfold num_method. destruct ((m =? M_INC) || (m =? M_DEC)); [|cbn [pres]; pd].
+  destruct args as [|v [|? ?]]; try (destruct v); cbn [pres]; pd.
+Qed.
+
 Lemma pres_list_method fuel st l items m args : pres st (list_method fuel st l items m args).
 Proof.
   unfold list_method.
